@@ -374,16 +374,39 @@ def member_values(base):
     return sorted({int(m.value) for m in base.__members__.values()})
 
 
+SPEC = {'call': None, 'domain': {}}     # the extracted specification (Spec/NfdEnums.v [domain]) once the model runs
+
+
+def ekind_of(base):
+    """kind of the Python type as Model/NfdEnums.v names it: 0 Enum, 1 Flag (strict), 2 Flag (KEEP)."""
+    import enum
+    if issubclass(base, enum.Flag):
+        return 2 if getattr(base, '_boundary_', None) is enum.FlagBoundary.KEEP else 1
+    return 0
+
+
 def enum_domain(base, type_num):
     """-> (legal, unknown): the numbers the management protocol defines for the field (members; for a bit field every
-    union of the declared bits, 0 included) and neighbouring numbers it does not define."""
+    union of the declared bits, 0 included: Spec/NfdEnums.v [domain], evaluated by the extracted specification) and
+    neighbouring numbers it does not define."""
     mem = member_values(base)
-    if type_num in BITFIELD_TYPES:
-        legal = {0}
-        for b in mem:
-            legal |= {x | b for x in legal}
-    else:
-        legal = set(mem)
+    key = (type_num, tuple(mem))
+    if key not in SPEC['domain']:
+        if type_num in BITFIELD_TYPES:
+            legal = {0}
+            for b in mem:
+                legal |= {x | b for x in legal}
+        else:
+            legal = set(mem)
+        if SPEC['call'] is not None:
+            r = SPEC['call']([15, type_num, mem])
+            spec = {num(x) for x in r[1]} if isinstance(r, list) and len(r) == 2 and not is_err(r) else None
+            if spec != legal:
+                SPEC['mismatch'] = (key, r)
+            if spec:
+                legal = spec
+        SPEC['domain'][key] = legal
+    legal = SPEC['domain'][key]
     top = max(legal)
     cand = [0, top + 1, top + 2, 2 * (top + 1), 255, 256, 65535, 65536, (1 << 32) - 1, 1 << 32, (1 << 64) - 1]
     unknown = []
@@ -606,6 +629,13 @@ def check_dataset(ctx, k, cls, v, as_enum, gen, stratum):
             # a number the protocol does not define (yet): the typed attribute refuses it with ValueError on the library as
             # found; recorded, the stored number is compared instead (see docs/C17.md, "unknown numbers")
             ctx.stat(f'unknown-number-refused:{base.__name__}')
+    # model of the typed read (Model/NfdEnums.v typed_read on the type found on this run) vs the implementation
+    for owner, fname, base, n in sorted(set(gen.enum_fields), key=repr):
+        raised = any(u[0] == owner and u[1] == fname and u[4] == n for u in unread)
+        mr = M([14, ekind_of(base), member_values(base), n])
+        if is_err(mr) != raised or (not is_err(mr) and num(mr[1]) != n):
+            ctx.disagree(f'{owner}.{fname}', 'typed read of an enumerated field: model and implementation differ',
+                         {'model': name, 'type': base.__name__, 'number': n}, mr, 'raises' if raised else 'returns')
     if unread:
         got = patch_unreadable(cls, got, obj)
     d = value_diff(cls, ('m', v[1]), got, name)
@@ -699,6 +729,20 @@ def run_datasets(ctx):
     if found != NFD_MODELS or num(nm) != len(NFD_MODELS):
         ctx.disagree('nfd_models', 'the management models of nfd_mgmt.py are not the ones listed in Model/NfdMgmt.v',
                      {}, [NFD_MODELS, nm], found)
+    SPEC['call'], SPEC['domain'] = ctx.call, {}
+    SPEC.pop('mismatch', None)
+    # the table of enumerated fields the theorems are about (Generated/NfdEnums.v) is the one reflected on this run
+    mine = []
+    for k, name in enumerate(NFD_MODELS):
+        c = getattr(nfd_mgmt, name, None)
+        for f in (D.wire_fields(c) if c is not None else []):
+            if D.reflect_field(f)[1][0] == 'uint' and enum_base(f) is not None:
+                mine.append((k, f.type_num, ekind_of(enum_base(f)), tuple(member_values(enum_base(f)))))
+    tab = ctx.call([13])
+    theirs = [(num(r[0]), num(r[1]), num(r[2]), tuple(num(x) for x in r[3])) for r in tab] if isinstance(tab, list) else tab
+    if theirs != mine:
+        ctx.disagree('nfd_enum_fields', 'the table of enumerated fields of Generated/NfdEnums.v is not the one reflected on this run',
+                     {}, theirs, mine)
     for k, name in enumerate(NFD_MODELS):
         cls = getattr(nfd_mgmt, name, None)
         if cls is None:
@@ -724,6 +768,9 @@ def run_datasets(ctx):
             g = DatasetGen(rng, presence=rng.choice([0.3, 0.75, 1.0]))
             v = g.model(cls)
             check_dataset(ctx, k, cls, v, rng.random() < 0.5, g, 'random')
+    if 'mismatch' in SPEC:
+        ctx.disagree('Spec.NfdEnums.domain', 'the extracted protocol domain differs from the harness computation', {},
+                     SPEC['mismatch'][1], SPEC['mismatch'][0])
 
 
 def run_enum_commands(ctx):
@@ -775,6 +822,12 @@ def run_enum_commands(ctx):
                     vals[idx[kwname]] = ('u', number)
                     case = {'module': module, 'command': command, 'local': local, 'vals': vals, 'written_as': f'{kwname}={text}'}
                     ctx.case(('enumcmd', module, command, kwname, text), True, None, 'command-enum-parameter')
+                    if len(names) == 2:
+                        a, b = [int(base.__members__[n].value) for n in names]
+                        mj = M([16, ekind_of(base), a, b])
+                        rj = impl(build)
+                        if is_err(mj) != (rj[0] == 'err') or (not is_err(mj) and num(mj[1]) != plain_int(rj[1])):
+                            ctx.disagree(f'nfd_mgmt.{bname}', 'A | B: model and implementation differ', {'written_as': text}, mj, rj[:1])
                     try:
                         arg = build()
                     except Exception as e:   # noqa
